@@ -928,9 +928,11 @@ MANIFEST = dict(
           "both values of is_uri_encoded no dereference leaves the input (c04_ipv6_no_oob), the run always ends with a verdict "
           "(c04_ipv6_total), the verdict equals a cursor-free specification (c04_ipv6_spec / c04_ipv6_accepts_iff) whose address part "
           "is characterised declaratively (c04_ipv6_addr_accept_iff: 2..39 hex/colon characters, no single colon at either end, hex runs "
-          "<= 4, either no '::' and exactly 7 colons or one '::' and at most 8 colons). The per-component memory-safety / totality theorems "
-          "of C05 (base64, hex, UTF-8), C10 (CBOR), C12 (XML), C13 (URI, percent-decoding, query), C19 (date-time) and C01 (unsigned-integer "
-          "parsing) are imported into the same theorem list by the integrator. The is_ipv6 model is tied to /repo by a correspondence run "
+          "<= 4, either no '::' and exactly 7 colons or one '::' and at most 8 colons). The same theorem list re-states (type_of%) the "
+          "memory-safety / totality theorems proved with the other components: XML no-OOB / fuel / returns / views-inside (C12), URI views "
+          "inside (C13), base64 and hex decode store bounds (C05), byte-cursor operations in bounds and unsigned-integer parsing (C01); "
+          "the CBOR and date-time readers are total by construction of their models (C10, C19) and their memory safety is decided by "
+          "the sanitizer run. The is_ipv6 model is tied to /repo by a correspondence run "
           "against host_utils.c rebuilt from the working tree. (2) Sanitizer-monitored execution of EVERY decoder of the current tree on "
           "arbitrary bytes (grammar-derived valid / mutated / uniform random streams, exact-size heap blocks and NULL/0 views, canary-filled "
           "exact-size outputs, view-range checks on every cursor handed back, error-channel check, per-op watchdog; 150 000 inputs quick, "
